@@ -1,179 +1,1 @@
-/-
-GENERATED by vextract from the Go source (parser.go, anytype.go) — do not edit.
-
-A translation of the parser core into Lean: the loops of `parseList` / `parseObject` (symbolic
-execution of the loop body; conventions of Model/Parser.lean: decoded items as input, a nested
-call returns the remaining items, `case stateStart` is executed once to obtain the initial
-arguments, recursion on fuel), `parseField`, the entry points `ParseList` / `ParseObject` and the
-escape table of `quoteJSON`.  Lemmas/ParserGenEq.lean proves these definitions equal to the
-hand-written model, so a change of the Go source that alters the behaviour breaks the build.
--/
-import Anytype.Model.Parser
-namespace Anytype.Generated
-open Anytype
-
-/-- `parseField` (parser.go:127) -/
-def parseFieldGen (field : Str) (line : Nat) : Except PErr JVal :=
-  if field == ['n', 'u', 'l', 'l'] then .ok .null
-  else
-    match parseIntBase0 field with
-    | some integer => .ok (.int integer)
-    | none =>
-      match F64.parseFloat field with
-      | some float => .ok (.float float)
-      | none =>
-        match parseBool field with
-        | some boolean => .ok (.bool boolean)
-        | none => .error ⟨.invalidValue, some line⟩
-
-mutual
-/-- the loop of `parseList` behind the opening bracket (parser.go:157, 126 lines of Go) -/
-def pListGen : Nat → List Item → LSt → List JVal → Str → Bool → Nat → PRes
-  | 0, _, _, _, _, _, _ => .err ⟨.fuel, none⟩
-  | _ + 1, [], _, _, _, _, _ => .err ⟨.unexpectedEnd, none⟩
-  | _ + 1, none :: _, _, _, _, _, _ => .err ⟨.notUtf8, none⟩
-  | fuel + 1, some c :: rest, st, acc, val, inVal, line0 =>
-    let line := bumpLine c line0
-    match st with
-    | .val =>
-      if isSpace c then pListGen fuel rest .val acc val inVal line
-      else if !inVal && c == '"' then pListGen fuel rest .str acc val inVal line
-      else if !inVal && c == '{' then
-        match pObjectGen fuel rest .keyStart [] [] [] false line with
-        | .err e => .err e
-        | .ok o rest' line' => pListGen fuel rest' .val (acc ++ [o]) val inVal line'
-      else if !inVal && c == '[' then
-        match pListGen fuel rest .val [] [] false line with
-        | .err e => .err e
-        | .ok l rest' line' => pListGen fuel rest' .val (acc ++ [l]) val inVal line'
-      else if c == ',' || c == ']' then
-        if !val.isEmpty then
-          match parseField val line with
-          | .error e => .err e
-          | .ok field =>
-            if c == ']' then .ok (.list (acc ++ [field])) rest line
-            else pListGen fuel rest .val (acc ++ [field]) [] false line
-        else if c == ']' then .ok (.list acc) rest line
-        else pListGen fuel rest .val acc val inVal line
-      else pListGen fuel rest .val acc (val ++ [c]) true line
-    | .str =>
-      if c == '\\' then pListGen fuel rest .esc acc val inVal line
-      else if c == '"' then pListGen fuel rest .afterStr (acc ++ [.str (unquoteJSON val)]) [] inVal line
-      else pListGen fuel rest .str acc (val ++ [c]) inVal line
-    | .esc => pListGen fuel rest .str acc (val ++ ['\\', c]) inVal line
-    | .afterStr =>
-      if c == ',' then pListGen fuel rest .val acc val inVal line
-      else if c == ']' then .ok (.list acc) rest line
-      else pListGen fuel rest .afterStr acc val inVal line
-
-/-- the loop of `parseObject` behind the opening bracket (parser.go:295, 197 lines of Go) -/
-def pObjectGen : Nat → List Item → OSt → List (Str × JVal) → Str → Str → Bool → Nat → PRes
-  | 0, _, _, _, _, _, _, _ => .err ⟨.fuel, none⟩
-  | _ + 1, [], _, _, _, _, _, _ => .err ⟨.unexpectedEnd, none⟩
-  | _ + 1, none :: _, _, _, _, _, _, _ => .err ⟨.notUtf8, none⟩
-  | fuel + 1, some c :: rest, st, acc, key, val, inVal, line0 =>
-    let line := bumpLine c line0
-    match st with
-    | .keyStart =>
-      if isSpace c then pObjectGen fuel rest .keyStart acc key val inVal line
-      else if c == '}' then .ok (.obj acc) rest line
-      else if c == '"' then pObjectGen fuel rest .key acc [] val inVal line
-      else .err ⟨.expectQuote, some line⟩
-    | .key =>
-      if c == '"' then pObjectGen fuel rest .afterKey acc key val inVal line
-      else if c == '\\' then pObjectGen fuel rest .keyEsc acc key val inVal line
-      else pObjectGen fuel rest .key acc (key ++ [c]) val inVal line
-    | .keyEsc => pObjectGen fuel rest .key acc (key ++ ['\\', c]) val inVal line
-    | .afterKey =>
-      if isSpace c then pObjectGen fuel rest .afterKey acc key val inVal line
-      else if c != ':' then .err ⟨.expectColon, some line⟩
-      else pObjectGen fuel rest .val acc (unquoteJSON key) [] false line
-    | .val =>
-      if isSpace c then pObjectGen fuel rest .val acc key val inVal line
-      else if !inVal && c == '"' then pObjectGen fuel rest .str acc key val inVal line
-      else if !inVal && c == '{' then
-        match pObjectGen fuel rest .keyStart [] [] [] false line with
-        | .err e => .err e
-        | .ok o rest' line' => pObjectGen fuel rest' .afterVal (setField acc key o) key val inVal line'
-      else if !inVal && c == '[' then
-        match pListGen fuel rest .val [] [] false line with
-        | .err e => .err e
-        | .ok l rest' line' => pObjectGen fuel rest' .afterVal (setField acc key l) key val inVal line'
-      else if c == ',' || c == '}' then
-        if !val.isEmpty then
-          match parseField val line with
-          | .error e => .err e
-          | .ok field =>
-            if c == ',' then pObjectGen fuel rest .keyStart (setField acc key field) key val inVal line
-            else if c == '}' then .ok (.obj (setField acc key field)) rest line
-            else pObjectGen fuel rest .val (setField acc key field) key (val ++ [c]) true line
-        else if c == ',' then pObjectGen fuel rest .keyStart acc key val inVal line
-        else if c == '}' then .ok (.obj acc) rest line
-        else pObjectGen fuel rest .val acc key (val ++ [c]) true line
-      else pObjectGen fuel rest .val acc key (val ++ [c]) true line
-    | .afterVal =>
-      if isSpace c then pObjectGen fuel rest .afterVal acc key val inVal line
-      else if c == ',' || c == '}' then
-        if c == ',' then pObjectGen fuel rest .keyStart acc key val inVal line
-        else .ok (.obj acc) rest line
-      else if c == '"' then pObjectGen fuel rest .key acc [] val inVal line
-      else .err ⟨.expectCommaBrace, some line⟩
-    | .str =>
-      if c == '\\' then pObjectGen fuel rest .esc acc key val inVal line
-      else if c == '"' then pObjectGen fuel rest .afterStr (setField acc key (.str (unquoteJSON val))) key val inVal line
-      else pObjectGen fuel rest .str acc key (val ++ [c]) inVal line
-    | .esc => pObjectGen fuel rest .str acc key (val ++ ['\\', c]) inVal line
-    | .afterStr =>
-      if c == ',' then pObjectGen fuel rest .keyStart acc key val inVal line
-      else if c == '}' then .ok (.obj acc) rest line
-      else pObjectGen fuel rest .afterStr acc key val inVal line
-end
-
-/-- `parseList(json[start:], &startLine)`: the machine run on the bytes behind the root bracket -/
-def runListGen (post : List UInt8) (startLine : Nat) : PRes :=
-  let items := decodeAll post
-  pListGen (items.length + 1) items .val [] [] false startLine
-
-/-- `ParseList` (parser.go:502) -/
-def parseListBytesGen (bs : List UInt8) : Except PErr JVal :=
-  match splitAtByte 0x5B bs with
-  | none => .error ⟨.missingBracket, none⟩
-  | some (pre, post) =>
-    match runListGen post (countNL pre + 1) with
-    | .ok v _ _ => .ok v
-    | .err e => .error e
-
-/-- `parseObject(json[start:], &startLine)`: the machine run on the bytes behind the root bracket -/
-def runObjectGen (post : List UInt8) (startLine : Nat) : PRes :=
-  let items := decodeAll post
-  pObjectGen (items.length + 1) items .keyStart [] [] [] false startLine
-
-/-- `ParseObject` (parser.go:521) -/
-def parseObjectBytesGen (bs : List UInt8) : Except PErr JVal :=
-  match splitAtByte 0x7B bs with
-  | none => .error ⟨.missingBracket, none⟩
-  | some (pre, post) =>
-    match runObjectGen post (countNL pre + 1) with
-    | .ok v _ _ => .ok v
-    | .err e => .error e
-
-/-- the escape table of `quoteJSON` (anytype.go:153): the tagless switch of its byte loop, for a byte
-< 0x80 read as a character; every test is false for a byte ≥ 0x80 and the default case copies
-the byte, so a multi-byte character is copied unchanged -/
-def escCharGen (c : Char) : Str :=
-  if c == '"' then ['\\', '"']
-  else if c == '\\' then ['\\', '\\']
-  else if c == '\x08' then ['\\', 'b']
-  else if c == '\x0c' then ['\\', 'f']
-  else if c == '\n' then ['\\', 'n']
-  else if c == '\r' then ['\\', 'r']
-  else if c == '\t' then ['\\', 't']
-  else if c.toNat < 0x20 then ['\\', 'u', '0', '0', ['0', '1', '2', '3', '4', '5', '6', '7', '8', '9', 'a', 'b', 'c', 'd', 'e', 'f'].getD (c.toNat >>> 4) '\x00', ['0', '1', '2', '3', '4', '5', '6', '7', '8', '9', 'a', 'b', 'c', 'd', 'e', 'f'].getD (c.toNat &&& 0xf) '\x00']
-  else [c]
-
-/-- `quoteJSON`: what is written before the loop, the table applied to every character, what is
-written behind the loop -/
-def quoteJSONGen (s : Str) : Str :=
-  ['"'] ++ s.flatMap escCharGen ++ ['"']
-
-end Anytype.Generated
+#check (vextract_translation_failed : "parser.go:365:7: unrecognised condition: str == \"\"")
